@@ -39,8 +39,11 @@ def make_tree(root, spec=INITIAL_TREE):
 class FsExecutor(object):
     def __init__(self, npreopen=1, stdin_data=b'standard input bytes\n', pages=64):
         self.base = cexec.new_dir('w')
-        self.real = os.path.join(self.base, 'real')
-        self.mirror = os.path.join(self.base, 'mirror')
+        # same path length on both sides (path-length limits hit both alike); separate parents, so that '..' escapes stay apart
+        os.makedirs(os.path.join(self.base, 'A', 'up'))
+        os.makedirs(os.path.join(self.base, 'B', 'up'))
+        self.real = os.path.join(self.base, 'A', 'up', 'real')
+        self.mirror = os.path.join(self.base, 'B', 'up', 'mirr')
         make_tree(self.real)
         make_tree(self.mirror)
         self.stdin_path = os.path.join(self.base, 'stdin')
@@ -92,15 +95,23 @@ class FsExecutor(object):
     def mpath(self, dirfd, name):
         d = self.fds[dirfd]
         if name.startswith('/'):
-            # absolute guest paths are used as is: they are generated inside the real sandbox root
-            return os.path.join(self.mirror, os.path.relpath(name, self.real))
-        return os.path.join(self.mirror, d['rel'], name)
+            # absolute guest paths are used as is: they are generated inside the real sandbox root (no normalisation)
+            return name.replace(self.real, self.mirror, 1)
+        return os.path.join(self.mirror, d['rel'], name) if d['rel'] else os.path.join(self.mirror, name)
 
     def rpath(self, dirfd, name):
         d = self.fds[dirfd]
         if name.startswith('/'):
             return name
         return os.path.join(self.real, d['rel'], name)
+
+    def subst(self, name):
+        """histories name the sandbox root symbolically so that they replay in a fresh sandbox"""
+        if name is None:
+            return None
+        if isinstance(name, str):
+            return name.replace('@REAL@', self.real)
+        return bytes(name).replace(b'@REAL@', self.real.encode())
 
     def put_path(self, name_bytes, where=PATHBUF):
         # guest path bytes are NOT NUL terminated: followed by junk
@@ -141,6 +152,7 @@ class FsExecutor(object):
     # ---- operations
     def path_open(self, dirfd, name, oflags, read, write, append, unstable=False):
         self.record('path_open', dirfd, name, oflags, read, write, append, unstable)
+        name = self.subst(name)
         nb = name.encode() if isinstance(name, str) else name
         p, ln = self.put_path(nb)
         rights = (RIGHTS_READ if read else 0) | (RIGHTS_WRITE if write else 0)
@@ -184,6 +196,10 @@ class FsExecutor(object):
         rel = os.path.normpath(os.path.join(self.fds[dirfd]['rel'], name)) if not name.startswith('/') else os.path.relpath(name, self.real)
         self.fds[fd] = {'kind': kind, 'rel': '' if rel == '.' else rel, 'mfd': mfd, 'closed': False, 'append': append, 'pre': False,
                         'path': self.rpath(dirfd, name)}
+        try:
+            self.fds[fd]['ino'] = os.stat(self.rpath(dirfd, name)).st_ino
+        except OSError:
+            self.fds[fd]['ino'] = None
         return fd
 
     def fd_write(self, fd, bufs):
@@ -439,6 +455,217 @@ class FsExecutor(object):
         if got[len(path):] != bytes([CANARY] * 8):
             self.fail('guest-overwrite', 'fd_prestat_dir_name wrote past the requested length')
 
+    # ---- C14: path operations
+    PATH_MAX = 4096
+
+    def _joined_len(self, dirfd, nb):
+        if nb[:1] == b'/':
+            return len(nb)
+        return len(self.fds[dirfd]['path'].encode()) + 1 + len(nb)
+
+    def path_op(self, op, dirfd, name, name2=None, dirfd2=None, bufsize=64, unstable=False):
+        """op in create_directory, remove_directory, unlink_file, rename, symlink, readlink, filestat_get.
+        name/name2 are str or bytes guest paths (relative to the descriptor, or absolute inside the sandbox)"""
+        self.record('path_op', op, dirfd, name if isinstance(name, str) else {'hex': bytes(name).hex()},
+                    name2 if name2 is None or isinstance(name2, str) else {'hex': bytes(name2).hex()}, dirfd2, bufsize, unstable)
+        name, name2 = self.subst(name), self.subst(name2)
+        a = self.agent
+        nb = name.encode() if isinstance(name, str) else bytes(name)
+        nb2 = None if name2 is None else (name2.encode() if isinstance(name2, str) else bytes(name2))
+        p1, l1 = self.put_path(nb, PATHBUF)
+        if nb2 is not None:
+            p2, l2 = self.put_path(nb2, PATHBUF2)
+        d2 = dirfd if dirfd2 is None else dirfd2
+
+        def mp(dfd, b):
+            s_ = b.decode('utf-8', 'surrogateescape')
+            return self.mpath(dfd, s_)
+        err = None
+        result = None
+        too_long = 0
+        limit_zone = False
+        for dfd, b in ((dirfd, nb), (d2, nb2)) if nb2 is not None and op != 'symlink' else ((dirfd if op != 'symlink' else d2, nb if op != 'symlink' else nb2),):
+            jl = self._joined_len(dfd, b)
+            if jl >= self.PATH_MAX:
+                too_long += 1
+            elif jl >= self.PATH_MAX - 2:
+                limit_zone = True
+        empty = (len(nb) == 0 and op != 'symlink') or (nb2 is not None and len(nb2) == 0)
+        if op == 'symlink' and len(nb) >= self.PATH_MAX:
+            too_long += 1
+        if too_long or limit_zone:
+            self.flags.add('path_near_limit')
+        if not self.fds[dirfd]['pre'] or (dirfd2 is not None and not self.fds[dirfd2]['pre']):
+            self.flags.add('non_preopen_dirfd')
+        before = None
+        if too_long or empty:
+            before = self.tree_listing()
+        a.fill(RES, 16)
+        a.fill(DIRBUF, bufsize + 16)
+        a.fill(STATBUF, 80)
+        if op == 'create_directory':
+            r = a.call('path_create_directory', unstable, dirfd, p1, l1)
+        elif op == 'remove_directory':
+            r = a.call('path_remove_directory', unstable, dirfd, p1, l1)
+        elif op == 'unlink_file':
+            r = a.call('path_unlink_file', unstable, dirfd, p1, l1)
+        elif op == 'rename':
+            r = a.call('path_rename', unstable, dirfd, p1, l1, d2, p2, l2)
+        elif op == 'symlink':
+            r = a.call('path_symlink', unstable, p1, l1, d2, p2, l2)
+        elif op == 'readlink':
+            r = a.call('path_readlink', unstable, dirfd, p1, l1, DIRBUF, bufsize, RES)
+        elif op == 'filestat_get':
+            r = a.call('path_filestat_get', unstable, dirfd, 1, p1, l1, STATBUF)
+        else:
+            raise AssertionError(op)
+        rep = a.sanitizer_report()
+        if rep:
+            self.fail('sanitizer', 'sanitizer report during path_%s: %s' % (op, rep[-800:]))
+        if empty or too_long:
+            if r == 0:
+                self.fail('path-accepted:%s' % ('empty' if empty else 'too-long'),
+                          'path_%s accepted %s' % (op, 'an empty path' if empty else 'a path whose resolved length %d does not fit the host limit' % max(self._joined_len(dirfd, nb), len(nb))))
+            if self.tree_listing() != before:
+                self.fail('path-rejected-but-acted', 'path_%s was rejected with %s but changed the tree' % (op, ename(r)))
+            return
+        try:
+            if op == 'create_directory':
+                os.mkdir(mp(dirfd, nb), 0o755)
+            elif op == 'remove_directory':
+                os.rmdir(mp(dirfd, nb))
+            elif op == 'unlink_file':
+                os.unlink(mp(dirfd, nb))
+            elif op == 'rename':
+                os.rename(mp(dirfd, nb), mp(d2, nb2))
+            elif op == 'symlink':
+                tgt = nb.decode('utf-8', 'surrogateescape')
+                os.symlink(tgt, mp(d2, nb2))
+            elif op == 'readlink':
+                if bufsize == 0:
+                    raise OSError(errno.EINVAL, 'readlink(2) with a zero-sized buffer')
+                result = os.readlink(mp(dirfd, nb).encode('utf-8', 'surrogateescape'))
+            elif op == 'filestat_get':
+                result = os.stat(self.rpath(dirfd, nb.decode('utf-8', 'surrogateescape')) if nb[:1] != b'/' else nb)
+        except OSError as e:
+            err = e
+        except ValueError as e:        # embedded NUL etc.: not generated
+            return
+        if limit_zone:
+            # boundary zone the property leaves open: rejection or the host's answer
+            if r != 0 and err is None:
+                self._undo_mirror(op, mp, dirfd, nb, d2, nb2)
+            elif r == 0 and err is not None:
+                self.fail('limit-zone', 'path_%s succeeded where the POSIX call fails with %s' % (op, err))
+            return
+        self.check_errno('path_%s(%r%s)' % (op, nb[:60], '' if nb2 is None else ', %r' % nb2[:60]), r, err)
+        if err is None and op == 'readlink':
+            got_len = a.peek_u32(RES)
+            exp = result.replace(self.mirror.encode(), self.real.encode())[:bufsize]
+            data = a.peek(DIRBUF, bufsize + 8)
+            if got_len != len(exp) or data[:len(exp)] != exp:
+                self.fail('readlink', 'path_readlink gave %r (length %d), readlink() gives %r' % (data[:got_len][:60], got_len, exp[:60]))
+            if data[bufsize:] != bytes([CANARY] * 8):
+                self.fail('guest-overwrite', 'path_readlink wrote past its buffer')
+        if err is None and op == 'filestat_get':
+            self.compare_stat('path_filestat_get', result, unstable)
+
+    def _undo_mirror(self, op, mp, dirfd, nb, d2, nb2):
+        try:
+            if op == 'create_directory':
+                os.rmdir(mp(dirfd, nb))
+            elif op == 'symlink':
+                os.unlink(mp(d2, nb2))
+            elif op == 'rename':
+                os.rename(mp(d2, nb2), mp(dirfd, nb))
+        except OSError:
+            pass
+
+    def tree_listing(self):
+        out = []
+        for dp, dns, fns in os.walk(self.real):
+            out.append((os.path.relpath(dp, self.real), sorted(dns), sorted(fns)))
+        return sorted(out)
+
+    def open_dir(self, dirfd, name):
+        return self.path_open(dirfd, name, O_DIRECTORY, True, False, False)
+
+    # ---- C14: fd_readdir with the standard client
+    def _listing(self, fd, bufsize, cookie, max_calls=10000):
+        """standard client: consume complete entries, resume from the last complete entry's d_next"""
+        a = self.agent
+        entries = []
+        calls = 0
+        while True:
+            calls += 1
+            if calls > max_calls:
+                self.fail('readdir-loop', 'fd_readdir does not make progress with buffer size %d' % bufsize)
+            a.fill(DIRBUF, bufsize + 16)
+            a.fill(RES, 16)
+            r = a.call('fd_readdir', 0, fd, DIRBUF, bufsize, cookie, RES)
+            if r != 0:
+                self.fail('readdir-errno', 'fd_readdir(fd=%d, len=%d, cookie=%d) failed with %s' % (fd, bufsize, cookie, ename(r)))
+            used = a.peek_u32(RES)
+            if used > bufsize:
+                self.fail('readdir-used', 'fd_readdir reported %d used bytes for a %d-byte buffer' % (used, bufsize))
+            raw = a.peek(DIRBUF, bufsize + 8)
+            if raw[bufsize:] != bytes([CANARY] * 8):
+                self.fail('guest-overwrite', 'fd_readdir wrote past its buffer')
+            pos = 0
+            got = 0
+            while pos + 24 <= used:
+                d_next, d_ino, namlen, d_type = struct.unpack('<QQIB', raw[pos:pos + 21])
+                if pos + 24 + namlen > used:
+                    break
+                name = raw[pos + 24:pos + 24 + namlen]
+                entries.append((name, d_next, d_ino, d_type, namlen))
+                cookie = d_next
+                pos += 24 + namlen
+                got += 1
+            if used < bufsize:
+                return entries, calls
+            if got == 0:
+                self.fail('readdir-stuck', 'buffer of %d bytes can hold an entry but fd_readdir delivered no complete entry' % bufsize)
+
+    def readdir(self, fd, bufsize, resume_index, restart):
+        self.record('readdir', fd, bufsize, resume_index, restart)
+        d = self.fds[fd]
+        rdir = d['path']
+        try:
+            if d.get('ino') is not None and os.stat(rdir).st_ino != d['ino']:
+                return
+            names = os.listdir(rdir)
+        except OSError:
+            return          # the directory was renamed / removed after the descriptor was opened: nothing specified to compare
+        maxname = max([len(os.fsencode(n)) for n in names] + [2])
+        bufsize = max(bufsize, 24 + maxname)          # "any buffer size that can hold one entry"
+        entries, calls = self._listing(fd, bufsize, 0)
+        if calls >= 3:
+            self.flags.add('listing_needs>=3_calls')
+        want = sorted([os.fsencode(n) for n in names] + [b'.', b'..'])
+        got = sorted(e[0] for e in entries)
+        if got != want:
+            self.fail('readdir-names', 'fd_readdir (buffer %d) listed %r, the directory holds %r' % (bufsize, got, want))
+        for name, d_next, d_ino, d_type, namlen in entries:
+            st = os.lstat(os.path.join(os.fsencode(rdir), name))
+            ft = 3 if stat.S_ISDIR(st.st_mode) else 4 if stat.S_ISREG(st.st_mode) else 7 if stat.S_ISLNK(st.st_mode) else 0
+            if d_ino != st.st_ino or d_type != ft or namlen != len(name):
+                self.fail('readdir-entry', 'dirent of %r: ino %d type %d namlen %d, lstat gives ino %d type %d' % (
+                    name, d_ino, d_type, namlen, st.st_ino, ft))
+        if entries and resume_index is not None:
+            self.flags.add('resume')
+            k = resume_index % len(entries)
+            rest, _ = self._listing(fd, bufsize, entries[k][1])
+            if [e[0] for e in rest] != [e[0] for e in entries[k + 1:]]:
+                self.fail('readdir-resume', 'resuming from the cookie of entry %d (%r) gave %r, expected %r' % (
+                    k, entries[k][0], [e[0] for e in rest], [e[0] for e in entries[k + 1:]]))
+        if restart:
+            self.flags.add('restart')
+            again, _ = self._listing(fd, bufsize, 0)
+            if sorted(e[0] for e in again) != want:
+                self.fail('readdir-restart', 'a second listing from cookie 0 gave %r, expected the full directory %r' % (
+                    sorted(e[0] for e in again), want))
+
     # ---- final / per-file comparison
     def check_file(self, d):
         if d['kind'] != 'file':
@@ -511,6 +738,7 @@ def replay_history(history, npreopen=1, extra=None):
                 op, args = step[0], step[1:]
                 if op in ('fd_write', 'fd_pwrite'):
                     args = [args[0], [bytes.fromhex(h) for h in args[1]]] + list(args[2:])
+                args = [bytes.fromhex(x['hex']) if isinstance(x, dict) and 'hex' in x else x for x in args]
                 m = getattr(ex, op, None) or (extra or {}).get(op)
                 if m is None:
                     continue
